@@ -25,6 +25,10 @@ What extraction changes in a function (complete list; everything else is token-f
   E9  `.into()` (method call, no arguments) -> `.verif_into()`: Verus has no spec for user `Into` impls; the unit declares
       `verif_into` on the source type with the contract of the one-line impl (`fn into(self) -> LoopTyme { self.parent }`)
   E10 `for _ in a..b` -> `for verif_i in a..b` (names the counter so that a loop invariant can refer to it; nothing else changes)
+  E11 (opt-in, `havoc_f64=1` on the directive) a statement `x += E;` / `x = E;` whose right side computes through `as f64` is
+      written `x = verif_havoc_isize();` - an ARBITRARY value (over-approximation: whatever the unit proves holds for every
+      value of E, so the rule can only make a proof harder; it is used for safety clauses that do not depend on E)
+  E12 `for &x in E {` -> `for verif_r_x in E { let x = *verif_r_x;` (Verus has no reference patterns; the desugaring is exact for Copy items)
   E5  the clauses above are inserted at the anchored positions
 Any lost anchor raises ScanError (exit 2).
 """
@@ -111,6 +115,29 @@ class Extraction:
             if t.kind == 'id' and t.text == 'into' and toks[j - 1].text == '.' and toks[j + 1].text == '(' and toks[j + 2].text == ')':
                 repl.append((t.start, t.end, 'verif_into'))
                 dropped.append('.into() -> .verif_into()')
+        # E11: havoc statements computing through f64 (opt-in)
+        if d.get('havoc_f64'):
+            for j in range(it.body_open_k, it.toks_hi - 3):
+                t = toks[j]
+                if t.kind == 'id' and toks[j - 1].text in (';', '{', '}') and (toks[j + 1].text == '=' or (toks[j + 1].text == '+' and toks[j + 2].text == '=' and toks[j + 1].end == toks[j + 2].start)):
+                    e = j + 1
+                    while toks[e].text != ';':
+                        e += 1
+                    seg = [toks[q].text for q in range(j, e)]
+                    if any(seg[q] == 'as' and seg[q + 1] == 'f64' for q in range(len(seg) - 1)):
+                        repl.append((t.start, toks[e].start, '%s = verif_havoc_isize()' % t.text))
+                        dropped.append('statement computing through f64 -> arbitrary value (E11)')
+        # E12: `for &x in E {` -> `for verif_r_x in E { let x = *verif_r_x;`
+        for j in range(it.body_open_k, it.toks_hi - 4):
+            t = toks[j]
+            if t.kind == 'id' and t.text == 'for' and toks[j + 1].text == '&' and toks[j + 2].kind == 'id' and toks[j + 3].text == 'in':
+                name = toks[j + 2].text
+                q = j + 4
+                while toks[q].text != '{':
+                    q += 1
+                repl.append((toks[j + 1].start, toks[j + 2].end, 'verif_r_%s' % name))
+                repl.append((toks[q].end, toks[q].end, ' let %s = *verif_r_%s;' % (name, name)))
+                dropped.append('for &%s in -> for verif_r_%s in + let %s = *verif_r_%s' % (name, name, name, name))
         # E10: `for _ in` -> `for verif_i in`
         for j in range(it.body_open_k, it.toks_hi - 3):
             t = toks[j]
